@@ -50,7 +50,7 @@ func VerifC06_s3_same_header() {
 	s := &altSvc{jwtOK: nondetBool("jwt-ok"), oauthOK: nondetBool("oauth-ok")}
 	mux := goahttp.NewMuxer()
 	alts.Mount(mux, alts.New(alt.NewEndpoints(s), mux, func(*http.Request) goahttp.Decoder { return stubDecoder{func(any) error { return nil }} }, recEncoder(), nil, nil))
-	cred := nondetString("cred", 1) + nondetStringUpTo("cred-tail", 1)
+	cred := nondetString("cred", 1) + nondetStringUpTo("cred-tail", deep(1))
 	verifAssume(visible(cred))
 	req := newRequest("GET", nil)
 	req.URL.Path = "/either"
